@@ -326,6 +326,22 @@ def make_forwarder_to_partial_of_annotated():
     return w, [w, target, target.__signature__]
 
 
+def make_wrapper_decorator_over_annotated():
+    @modifiers.annotate(x=int)
+    def target(x, y=2):
+        return x
+    g = wrappers.wrapper_decorator(deco)(target)
+    return g, [g, target, target.__signature__]
+
+
+def make_wrapper_decorator_over_kwoargs():
+    @modifiers.kwoargs('y')
+    def target(x, y=2):
+        return x
+    g = wrappers.wrapper_decorator(deco)(target)
+    return g, [g, target, target.__signature__]
+
+
 def make_annotate_then_kwoargs_nosource():
     # the same, on a function whose source cannot be retrieved (built by exec): the discovery hint has nothing to say
     ns = {}
@@ -339,7 +355,8 @@ SCENARIOS = ('wraps1', 'wraps2', 'own_signature', 'own_signature_and_wrapped', '
              'signature_property', 'forwards_to_function', 'forwards_emulate', 'forger_raises', 'kwoargs_function',
              'kwoargs_method', 'wrappers_decorator', 'partial_of_wraps', 'annotate_then_kwoargs',
              'handbuilt_upgraded_signature', 'handbuilt_on_instance', 'forger_raises_emulate', 'as_forged_forger_fails',
-             'annotate_then_kwoargs_nosource', 'class_call_emulate', 'partial_of_modified', 'forwarder_to_partial_of_annotated')
+             'annotate_then_kwoargs_nosource', 'class_call_emulate', 'partial_of_modified', 'forwarder_to_partial_of_annotated',
+             'wrapper_decorator_over_annotated', 'wrapper_decorator_over_kwoargs')
 RETRIEVERS = (('sigtools.signature', lambda o: sigtools.signature(o)),
               ('inspect.signature', lambda o: inspect.signature(o)))
 
